@@ -12,7 +12,10 @@ Decided clauses, per listener program, on SSA-form IR:
   K5  %s must not print receive-buffer bytes; decoder result objects must have
       their members set before the call;
   K6  an object handed to free() is not accessed (or freed again) at a point
-      that free() dominates.
+      that free() dominates;
+  K7  an index or copy length computed from the receive count stays inside the
+      object for every count the dominating comparisons allow (interval of the
+      count: -1 .. receive length, refined edge by edge).
 Not decided: everything else in the statement (absence of every memory error,
 termination in general, liveness after a bad datagram)."""
 from .. import build, irparse, taint
@@ -66,7 +69,7 @@ def run(tier, res):
     if total_recv < floors.get('C18_min_recv_calls', 6):
         raise Broken('only %d receive calls found over all listeners' % total_recv)
     res.explanation = __doc__
-    res.rule = 'K1-K6 as in the module docstring, over %d listener programs' % len(LISTENERS)
+    res.rule = 'K1-K7 as in the module docstring, over %d listener programs' % len(LISTENERS)
     build.cleanup()
     return res
 
